@@ -17,7 +17,11 @@ RULE = ("(1) acyclic conserved flows: superpositions of 1..6 weighted source->si
         "self loops and many equal weights; (3) float net fluxes of random reversible chains computed by the real "
         "enspara.tpt.net_fluxes (exact dyadic values handed to the model); (4) malformed: empty sinks/sources, indices "
         ">= n; (5) larger acyclic conserved flows (n=6..10, up to 10 superposed paths, num_paths=inf, subtract scheme, "
-        "cut-offs 0.5 / 0.9 / 1-1e-10 / exactly 1.0), also scaled by 2^-30. All with random source/sink sets (occasionally overlapping / duplicated), both removal schemes, "
+        "cut-offs 0.5 / 0.9 / 1-1e-10 / exactly 1.0), also scaled by 2^-30; (6) memory layouts: the matrices of (1), (2), (3), (5) "
+        "handed over as Fortran-ordered array, .T view, window of a larger C / F array, strided and negative-stride views, "
+        "read-only C / F arrays, float32, int32/int64 (integer entries), scipy.io.savemat->loadmat output -- same numbers, so "
+        "the same results are demanded, and the caller's array, the memory it is a view of, its dtype, strides and flags "
+        "must be unchanged. All with random source/sink sets (occasionally overlapping / duplicated), both removal schemes, "
         "num_paths in {1,2,3,inf}, flux_cutoff in {0.5,0.9,1-1e-10} (stream 5 also 1.0). On conserved subtract cases with "
         "num_paths=inf the executable hypotheses of c17_conserved_reaches_fraction (conservedb, forwardb with a topological "
         "order, nodupb of the sources) are evaluated in Coq too. Each case runs the real top_path and paths; the "
@@ -39,7 +43,10 @@ ASSUMPTIONS = ["net-flux entries are non-negative; state indices are 0 <= i < n;
                "reaching the requested fraction (c17_conserved_reaches_fraction): subtract scheme, num_paths=inf, cutoff <= 1, "
                "acyclic conserved non-negative flow, sources listed once and disjoint from the sinks, exact arithmetic; the "
                "oracle checks the same clause on the doubles with tolerance 1e-9 * total",
-               "input-unchanged is checked on the real arrays only (the Gallina model is pure)"]
+               "input-unchanged is checked on the real arrays only (the Gallina model is pure): the array handed over, the "
+               "memory it is a view of, its dtype, strides and flags, in every layout of stream (6)",
+               "net_flux is an np.ndarray as documented; np.matrix is not admitted (top_path's 2-index reads of a row raise "
+               "IndexError on the unchanged code), scipy sparse matrices neither"]
 SHARD = 60
 EXHAUSTIVE = {"thorough": True}
 CUTOFFS = [0.5, 0.9, 1 - 1e-10, 1.0]
@@ -159,9 +166,28 @@ def _float_flux(rng):
             return n, [[F(float(x)) for x in row] for row in nf], src, snk
 
 
-def _mk(kind, n, M, src, snk, scheme, npaths, cutoff):
-    return {"kind": kind, "n": n, "M": [[str(x) for x in row] for row in M], "src": [int(x) for x in src],
-            "snk": [int(x) for x in snk], "scheme": scheme, "num_paths": npaths, "cutoff": cutoff}
+def _mk(kind, n, M, src, snk, scheme, npaths, cutoff, layout=None):
+    c = {"kind": kind, "n": n, "M": [[str(x) for x in row] for row in M], "src": [int(x) for x in src],
+         "snk": [int(x) for x in snk], "scheme": scheme, "num_paths": npaths, "cutoff": cutoff}
+    if layout is not None:
+        c["layout"] = layout
+    return c
+
+
+# memory layouts / dtypes in which the caller may hold the net-flux matrix (round 3s).  Every layout holds exactly the
+# same numbers, so every result must be the one of the plain C-ordered float64 array.
+LAYOUTS = ["C", "F", "T", "win", "winF", "step", "rev", "ro", "roF", "f32", "f32F", "int", "intF", "loadmat"]
+
+
+def _layout_ok(c, lay):
+    """can the layout hold the matrix exactly? (integer dtypes: integer entries; float32: 24-bit dyadic entries)"""
+    xs = [F(x) for row in c["M"] for x in row]
+    if lay in ("int", "intF"):
+        return all(x.denominator == 1 and abs(x) < 2 ** 31 for x in xs)
+    if lay in ("f32", "f32F"):
+        return all(F(float(np.float32(float(x)))) == x for x in xs) and \
+            F(float(np.float32(float(sum(xs))))) == sum(xs)
+    return True
 
 
 def _params(rng):
@@ -219,6 +245,30 @@ def generate(rng, tier):
         M = [[x * sc for x in row] for row in M]
         sch = "subtract" if rng.random() < 0.8 else "bottleneck"
         cases.append(_mk("conserved", n, M, src, snk, sch, None, rng.choice([0, 1, 2, 3, 3])))
+    # round 3s: the same matrices in other memory layouts / dtypes (Fortran order, transposed and strided views,
+    # windows of larger arrays, read-only arrays, float32, integer dtypes, scipy.io.loadmat output).  Both removal
+    # schemes; conserved flows that need several pathways are frequent, so that a removal which does not reach the
+    # working copy (and so returns the same pathway again) or which reaches the caller's memory is seen.
+    for i in range(260 if tier == "quick" else 2000):
+        r = rng.random()
+        sch = "bottleneck" if rng.random() < 0.55 else "subtract"
+        npaths, cut = rng.choice([2, 3, None, None, None]), rng.choice([0, 1, 2, 2, 3])
+        lay = LAYOUTS[i % len(LAYOUTS)] if rng.random() < 0.9 else rng.choice(LAYOUTS)
+        sc = F(1, 2 ** 30) if rng.random() < 0.2 else F(1)
+        if r < 0.35:
+            kind, (n, M, src, snk) = "conserved", _conserved(rng)
+        elif r < 0.55:
+            kind, (n, M, src, snk) = "conserved", _conserved_big(rng)
+        elif r < 0.92:
+            kind, (n, M, src, snk) = "digraph", _digraph(rng)
+        else:
+            kind, (n, M, src, snk) = "float", _float_flux(rng)
+            sc = F(1)
+        if lay in ("int", "intF") and kind != "float" and rng.random() < 0.8:
+            M = [[F(int(2 * x)) for x in row] for row in M]      # integer entries, so that an integer dtype holds them
+            sc = F(1)
+        M = [[x * sc for x in row] for row in M]
+        cases.append(_mk(kind, n, M, src, snk, sch, npaths, cut, layout=lay))
     if tier == "thorough":
         # exhaustive small scope: every digraph on 3 nodes with weights {0,1,2} on the 6 off-diagonal edges
         pos = [(i, j) for i in range(3) for j in range(3) if i != j]
@@ -254,6 +304,53 @@ def _matrix(c):
     return np.array([[float(F(x)) for x in row] for row in c["M"]], dtype=float).reshape(c["n"], c["n"])
 
 
+def _laid_out(c):
+    """(array handed to the code, array owning the memory): the same numbers in the layout named by c["layout"]"""
+    A = _matrix(c)
+    n = c["n"]
+    lay = c.get("layout") or "C"
+    if not _layout_ok(c, lay):
+        lay = {"int": "C", "intF": "F", "f32": "C", "f32F": "F"}[lay]
+    if lay == "C":
+        return A, A
+    if lay == "F":
+        B = np.asfortranarray(A)
+        return B, B
+    if lay == "T":                       # a .T view of a C-ordered array
+        B = np.ascontiguousarray(A.T)
+        return B.T, B
+    if lay in ("win", "winF"):           # a window of a larger array, surrounded by large positive entries
+        B = np.full((n + 3, n + 4), 77.0, order="F" if lay == "winF" else "C")
+        B[1:1 + n, 2:2 + n] = A
+        return B[1:1 + n, 2:2 + n], B
+    if lay == "step":                    # every second row / third column of a larger array
+        B = np.full((2 * n, 3 * n), 55.0)
+        B[::2, 1::3] = A
+        return B[::2, 1::3], B
+    if lay == "rev":                     # negative strides
+        B = np.ascontiguousarray(A[::-1, ::-1])
+        return B[::-1, ::-1], B
+    if lay in ("ro", "roF"):
+        B = np.asfortranarray(A) if lay == "roF" else A
+        B.setflags(write=False)
+        return B, B
+    if lay in ("f32", "f32F"):
+        B = np.array(A, dtype=np.float32, order="F" if lay == "f32F" else "C")
+        return B, B
+    if lay in ("int", "intF"):
+        B = np.array(A, dtype=np.int64 if n % 2 else np.int32, order="F" if lay == "intF" else "C")
+        return B, B
+    if lay == "loadmat":                 # what scipy.io.loadmat hands back for a matrix saved by Matlab / savemat
+        import io
+        import scipy.io
+        buf = io.BytesIO()
+        scipy.io.savemat(buf, {"net_flux": A})
+        buf.seek(0)
+        B = scipy.io.loadmat(buf)["net_flux"]
+        return B, B
+    raise AssertionError(lay)
+
+
 class NoTermination(Exception):
     pass
 
@@ -278,8 +375,9 @@ def _limited(fn, *a, **k):
 
 def run_impl(c):
     from enspara.tpt import path as P
-    M = _matrix(c)
-    M0 = M.copy()
+    M, base = _laid_out(c)
+    M0, base0 = M.copy(), base.copy()
+    meta0 = (M.dtype, M.strides, M.flags.writeable, M.flags.c_contiguous, M.flags.f_contiguous)
     res = {}
     try:
         p, fl = _limited(P.top_path, list(c["src"]), list(c["snk"]), M)
@@ -293,7 +391,11 @@ def run_impl(c):
         res["paths"] = {"paths": [[int(x) for x in p] for p in ps], "fluxes": [_fl(x) for x in fls]}
     except Exception as ex:
         res["paths"] = {"err": type(ex).__name__}
-    res["unchanged"] = bool(np.array_equal(M, M0))
+    res["unchanged"] = bool(np.array_equal(M, M0) and np.array_equal(base, base0) and
+                            meta0 == (M.dtype, M.strides, M.flags.writeable, M.flags.c_contiguous, M.flags.f_contiguous))
+    if c.get("layout"):
+        res["layout"] = "%s %s%s%s" % (M.dtype, "C" if M.flags.c_contiguous else "", "F" if M.flags.f_contiguous else "",
+                                       "" if M.flags.writeable else " read-only")
     return res
 
 
@@ -388,7 +490,8 @@ def oracle(c, r):
             out.append(("malformed-rejected", "no exception for src=%s snk=%s n=%d: %s" % (src, snk, n, r)))
         return out
     if not r.get("unchanged"):
-        out.append(("input-unchanged", "the caller's net_flux array was modified"))
+        out.append(("input-unchanged", "the caller's net_flux array%s was modified" % (
+            " (layout %s: %s)" % (c["layout"], r.get("layout")) if c.get("layout") else "")))
     exact = c["kind"] != "float"
     # ---- top_path
     t = r["top"]
@@ -413,7 +516,8 @@ def oracle(c, r):
     tol = F(0) if exact else F(1, 10 ** 9)
     R = M
     for k, (p, fl) in enumerate(zip(ps["paths"], fls)):
-        bad = _check_path(R, n, src, snk, p, fl, "paths[%d] (%s)" % (k, c["scheme"]))
+        bad = _check_path(R, n, src, snk, p, fl, "paths[%d] (%s%s)" % (
+            k, c["scheme"], ", net_flux laid out as %s: %s" % (c["layout"], r.get("layout")) if c.get("layout") else ""))
         if bad and not exact and c["scheme"] == "subtract" and k > 0:
             break          # float residuals: rounding decides which edges are still positive; stop comparing
         out += bad
@@ -586,6 +690,11 @@ def tags(c, r):
     t = [c["kind"], "scheme-" + c["scheme"], "num_paths-%s" % ("inf" if c["num_paths"] is None else c["num_paths"]),
          "cutoff-%s" % c["cutoff"]]
     top, ps = r["top"], r["paths"]
+    if c.get("layout"):
+        lay = c["layout"] if _layout_ok(c, c["layout"]) else "fallback"
+        t.append("layout-" + lay)
+        if "err" not in ps and len(ps["fluxes"]) >= 2:
+            t.append("layout-%s-%s-2+paths" % ("nonC" if lay not in ("C", "ro", "f32", "int") else "C", c["scheme"]))
     if "err" in top:
         t.append("top-" + top["err"])
     elif top["flux"] == "-inf":
@@ -622,7 +731,9 @@ def tags(c, r):
 ESSENTIAL_TAGS = ["conserved", "digraph", "float", "malformed", "scheme-subtract", "scheme-bottleneck", "top-finite",
                   "no-path", "multi-sink", "multi-source", "top-IndexError", "top-ValueError", "npaths-returned-4+",
                   "stopped-by-num_paths", "equal-fluxes", "fraction-clause-checked",
-                  "fraction-theorem-hypotheses-met", "cutoff-3"]
+                  "fraction-theorem-hypotheses-met", "cutoff-3"] + ["layout-" + l for l in LAYOUTS] + [
+                  "layout-nonC-bottleneck-2+paths", "layout-nonC-subtract-2+paths", "layout-C-bottleneck-2+paths",
+                  "layout-C-subtract-2+paths"]
 
 
 def translate(repo):
